@@ -90,14 +90,14 @@ def make_body(programs, k_join, filtered, entry='run'):
         pname = names[ctx.choose(len(names), 'program')]
         prog = PROGRAMS[pname]
         snap = sc.GlobalState()
-        if entry == 'call':
+        if entry in ('call', 'evaluate'):
             # the same student code as the body of a function, timed out inside call('go', threaded=True)
             prog = "def go():\n" + "".join("    " + l + "\n" for l in prog.split("\n") if l)
         sb = sc.contextualize(prog, {'answer.py': prog})
         sb.allowed_time = 5
         sb.data['spin'] = _spin
         sb.data['block'] = _block
-        if entry == 'call':
+        if entry in ('call', 'evaluate'):
             sb.run()
         n0 = len(sc.MAIN_REPORT.feedback)
         S = sched.begin(ctx, k_join, filtered)
@@ -108,6 +108,9 @@ def make_body(programs, k_join, filtered, entry='run'):
                 if entry == 'call':
                     ctx.step("call('go', threaded=True)")
                     sb.call('go', threaded=True)
+                elif entry == 'evaluate':
+                    ctx.step("evaluate('go()', threaded=True)")
+                    sb.evaluate('go()', threaded=True)
                 else:
                     ctx.step('run(threaded=True)')
                     sb.run(threaded=True)
@@ -295,6 +298,8 @@ def phases(tier):
               describe='points = lines touching shared state; all programs; pre-emption bound 2'),
         Phase('shared-state-lines-b3', make_body(_sub('slow', 'block'), 16, True), bound=3, setup=_setup, chunk=150,
               horizon_s=30, max_execs=600000, describe='terminating and blocking student; pre-emption bound 3 (capped)'),
+        Phase('evaluate-entry-b1', make_body(PROGRAMS, 40, True, 'evaluate'), bound=1, setup=_setup, chunk=150, horizon_s=30,
+              describe="the time-out inside evaluate('go()', threaded=True); all programs; pre-emption bound 1"),
         Phase('call-entry-b2', make_body(PROGRAMS, 40, True, 'call'), bound=2, setup=_setup, chunk=150, horizon_s=30,
               describe="the time-out inside call('go', threaded=True); all programs; pre-emption bound 2"),
         fr]
